@@ -5,7 +5,9 @@ each of the six faults injected at every possible position.  Oracle (evaluated i
 Dialect/FaultCheck.v, on what the IMPLEMENTATION did): MoleculeResolver.from_string(s).resolve_all()
 raises SyntaxError (TypeError for the non-numeric value), never returns a graph, never raises
 anything else.  Models: annotation faults = the dialect model of C14; ring faults = the ring-table
-fold AND the reader component's ReaderImpl.read_cgsmiles on the text the reader is called on; missing fragment = the loop of resolve_disconnected_molecule (Dialect/FaultModels.v); each is
+fold AND the reader component's ReaderImpl.read_cgsmiles on the text the reader is called on; annotation faults inside
+fragment definitions also = the strip component's character machine (Frag/StripImpl.strip_bonding_descriptors) on the
+whole faulty fragment text; missing fragment = the loop of resolve_disconnected_molecule (Dialect/FaultModels.v); each is
 compared with the implementation on every case.
 Call histories: the faulty string is also read AFTER a valid string was resolved and the fragment dict of one of
 its levels was extended in place (fragment_dict argument / item assignment) in the same process: the verdict must
@@ -298,7 +300,12 @@ def annot_faults(valid):
         def emit(fault, new_ents, p):
             tok = pre + ';'.join([head] + new_ents) + ']'
             text = ';'.join(([head] if lk != 1 else []) + new_ents)
-            out.append({'kind': 'annot', 'fault': fault, 'lk': lk, 'text': text, 's': splice(valid, pi, a, b, tok),
+            extra = {}
+            if lk != 0:
+                # the text of the fragment definition the faulty token stands in: what strip_bonding_descriptors is called on
+                part = valid['parts'][pi][:a] + tok + valid['parts'][pi][b:]
+                extra['frag_text'] = [part[fa:fb] for _, fa, fb in fragment_defs(part) if fa <= a < fb][0]
+            out.append({'kind': 'annot', 'fault': fault, 'lk': lk, 'text': text, 's': splice(valid, pi, a, b, tok), **extra,
                         'in_unit': bool(pi == 0 and valid.get('unit_start') is not None and a >= valid['unit_start']),
                         'where': [pi, a, p]})
         npos_existing = sum(1 for e in ents if '=' not in e)
@@ -422,7 +429,7 @@ class C20(common.Prop):
                  'rejected wherever it stands) + per-case correspondence of the three models with the implementation '
                  '+ the property evaluated in Coq on the exception the implementation raised, for every fault kind at '
                  'every position of generated valid strings')
-    vo_deps = ['theories/Dialect/FaultCheck.vo', 'theories/Reader/ReaderImpl.vo']
+    vo_deps = ['theories/Dialect/FaultCheck.vo', 'theories/Reader/ReaderImpl.vo', 'theories/Frag/StripImpl.vo']
     prop_file = 'theories/Properties/C20.v'
     case_requires = ('From Coq Require Import String.\nFrom Coq Require Import List Ascii ZArith Bool.\n'
                      'From CGV Require Import Base.PyBase Base.PyVal Dialect.DialectImpl Dialect.DialectDefs '
@@ -495,7 +502,10 @@ class C20(common.Prop):
         exc = resolve_all(case['s'], case['aa'], record=rec)
         out = {'exc': exc}
         if case['kind'] == 'annot':
-            out['table'] = c14.float_table(c14.candidates(case['text']))
+            cands = set(c14.candidates(case['text']))
+            for m in re.finditer(r'\[[^\]]*\]', case.get('frag_text', '')):
+                cands |= c14.candidates(m.group(0)[1:-1])
+            out['table'] = c14.float_table(cands)
         if case['kind'] == 'ring':
             out['table'] = c14.float_table({c for m in NODE_RE.finditer(case['reader_text'])
                                             for c in c14.candidates(m.group(0)[2:-1])})
@@ -521,6 +531,11 @@ class C20(common.Prop):
         if 'skip' in impl:
             return '(FRing 1%nat [EvRing 0%Z 1%Z] 1%Z [] (S "{[#A]1}") (Some (ESyntax (S "dangling"))))'
         im = 'None' if impl['exc'] is None else '(Some %s)' % c14.coq_err(impl['exc'])
+        if case['kind'] == 'annot' and 'frag_text' in case:
+            # fragment atoms / coarse nodes of a fragment definition: also the strip component's character machine on the
+            # whole faulty fragment text
+            return '(FStrip %s %s %s %s %s %s)' % (lit.nat(case['lk']), lit.nat(case['fault']), c14.coq_table(impl['table']),
+                                                  lit.s(case['text']), lit.s(case['frag_text']), im)
         if case['kind'] == 'annot':
             return '(FAnnot %s %s %s %s %s)' % (lit.nat(case['lk']), lit.nat(case['fault']), c14.coq_table(impl['table']),
                                                lit.s(case['text']), im)
